@@ -1,8 +1,14 @@
 //! SplitMix64-seeded xoshiro256** PRNG. Deterministic for a given seed; no external crates.
+//!
+//! Byte mode (`Rng::from_bytes`): the same generators can be driven by a coverage-guided fuzzer - every decision
+//! consumes bytes of the fuzzer's input (1 byte for choices among <= 256, 2 for <= 65536, 8 otherwise) until the
+//! input is used up; from then on the PRNG, seeded from the input, takes over (generators that loop until they draw
+//! a valid choice must not spin on a constant).
 
 #[derive(Clone, Debug)]
 pub struct Rng {
     s: [u64; 4],
+    src: Option<(std::sync::Arc<Vec<u8>>, usize)>,
 }
 
 pub fn splitmix(x: &mut u64) -> u64 {
@@ -38,10 +44,40 @@ impl Rng {
     pub fn new(seed: u64) -> Rng {
         let mut x = seed;
         let s = [splitmix(&mut x), splitmix(&mut x), splitmix(&mut x), splitmix(&mut x)];
-        Rng { s }
+        Rng { s, src: None }
+    }
+
+    /// A generator driven by `data` (see the module comment).
+    pub fn from_bytes(data: &[u8]) -> Rng {
+        let mut h = 0xcbf2_9ce4_8422_2325u64;
+        for b in data {
+            h ^= *b as u64;
+            h = h.wrapping_mul(0x0000_0100_0000_01B3);
+        }
+        let mut r = Rng::new(h);
+        r.src = Some((std::sync::Arc::new(data.to_vec()), 0));
+        r
+    }
+
+    /// Next `n` input bytes as a little-endian number; None once the input is used up (byte mode ends for good).
+    fn take_bytes(&mut self, n: usize) -> Option<u64> {
+        let (data, pos) = self.src.as_mut()?;
+        if *pos + n > data.len() {
+            self.src = None;
+            return None;
+        }
+        let mut v = 0u64;
+        for i in 0..n {
+            v |= (data[*pos + i] as u64) << (8 * i);
+        }
+        *pos += n;
+        Some(v)
     }
 
     pub fn next_u64(&mut self) -> u64 {
+        if let Some(v) = self.take_bytes(8) {
+            return v;
+        }
         let result = self.s[1].wrapping_mul(5).rotate_left(7).wrapping_mul(9);
         let t = self.s[1] << 17;
         self.s[2] ^= self.s[0];
@@ -56,6 +92,12 @@ impl Rng {
     /// Uniform in 0..n (n > 0).
     pub fn below(&mut self, n: u64) -> u64 {
         debug_assert!(n > 0);
+        if self.src.is_some() {
+            let w = if n <= 256 { 1 } else if n <= 65536 { 2 } else { 8 };
+            if let Some(v) = self.take_bytes(w) {
+                return v % n;
+            }
+        }
         // multiply-shift; bias negligible for our purposes
         ((self.next_u64() as u128 * n as u128) >> 64) as u64
     }
@@ -103,6 +145,7 @@ impl Rng {
     }
 
     pub fn fork(&mut self) -> Rng {
+        // (in byte mode the fork is seeded from the next 8 input bytes and runs as a plain PRNG)
         Rng::new(self.next_u64())
     }
 }
